@@ -27,7 +27,7 @@ def scan_terms(rng):
     return ['scan', g, rng.choice(seeds), rng.random() < 0.5, rng.choice([None, None, ['add', 100], ['neg']]) if g != ['last'] else None]
 
 
-def cases(tier, rng):
+def _cases(tier, rng):
     yield {'kind': 'mux', 'term': [['scan', ['add'], 0, False, None]], 'items': [1, 2, 3]}
     yield {'kind': 'mux', 'term': [['scan', ['add'], 0, True, None]], 'items': []}
     yield {'kind': 'mux', 'term': [['group_by', ['mod', 2], [['scan', ['append'], {'l': []}, True, None]]]], 'items': [1, 2, 3, 4, 5]}
@@ -67,7 +67,7 @@ def cases(tier, rng):
             yield {'kind': 'mux', 'term': [['group_by', ['mod', 2], [['roll', 2, 2, sts]]]], 'items': items}
 
 
-def oracle(case, r):
+def _oracle(case, r):
     if 'harness_exc' in r:
         return 'real code raised: ' + r['harness_exc']
     if r.get('raised') or muxprop.has_fatal(r['chunks']):
@@ -117,3 +117,14 @@ tags = muxprop.tags
 
 def violation_class(case, text):
     return 'lifetime' if 'lifetime' in text else 'fold'
+
+
+def cases(tier, rng):
+    """every case of `_cases`, and for a fraction of the mux/plain ones the same case run as the SECOND subscription of
+    its pipeline object (after an earlier subscription that completed, failed or was disposed)"""
+    pr = rng.sub('resubscription')
+    return muxprop.with_preludes(_cases(tier, rng), pr)
+
+
+def oracle(case, r):
+    return muxprop.prelude_violation(case, r) or _oracle(case, r)
